@@ -125,6 +125,8 @@ pub enum SlotM {
     Set(SetM),
     Ctx(Option<CtxM>),
     Task(TaskM),
+    /// a prepared Event value: (name, properties)
+    Event(String, Vec<(String, String)>),
     Gone,
 }
 
@@ -1140,6 +1142,70 @@ impl Model {
                 self.apply_op(op, t, &Op::LocalEnter { props: 0 }, &[], idx, true)?;
                 self.pop_handle(t, op, None)?;
                 self.pop_handle(t, op, None)?;
+            }
+            Op::EventNew { ev, n } => {
+                self.empty_slot(*ev)?;
+                if *n > 0 {
+                    self.closures.insert(op, (1, 1));
+                    self.run_inner(idx, t, inner)?;
+                }
+                let name = event_name(self.str_seed, op);
+                let pv = self.props(op, *n);
+                *self.slot(*ev) = SlotM::Event(name, pv);
+            }
+            Op::AddEventFrom { slot, ev } => {
+                let (name, pv) = match std::mem::replace(self.slot(*ev), SlotM::Gone) {
+                    SlotM::Event(n, p) => (n, p),
+                    other => {
+                        *self.slot(*ev) = other;
+                        return err("no prepared event in slot");
+                    }
+                };
+                match slot {
+                    Some(s) => {
+                        let sp = self.use_span(*s, op)?;
+                        if sp.recording {
+                            for it in sp.items.iter().filter(|i| i.sampled) {
+                                self.atts.push(ExpAtt {
+                                    target: PRef::Node(sp.node),
+                                    collect: it.collect,
+                                    trace_id: self.collects[it.collect].trace_id,
+                                    payload: Payload::Event {
+                                        name: name.clone(),
+                                        props: pv.clone(),
+                                    },
+                                    route: Route::Handle,
+                                    thread: t,
+                                    made_op: op,
+                                    submit_op: op,
+                                    from_set: None,
+                                    scope_op: None,
+                                });
+                            }
+                        }
+                    }
+                    None => {
+                        let mut full = false;
+                        if let Some(sc) = self.top_scope(t) {
+                            if sc.sampled {
+                                if sc.entries.len() >= QUEUE_CAP {
+                                    full = true;
+                                } else {
+                                    let parent = sc.open.last().copied();
+                                    sc.entries.push(Entry::Event {
+                                        parent,
+                                        name,
+                                        props: pv,
+                                        op,
+                                    });
+                                }
+                            }
+                        }
+                        if full {
+                            self.scope_limit_hits += 1;
+                        }
+                    }
+                }
             }
             Op::HoldChild => {
                 let task = match self.cur_task {
